@@ -96,9 +96,15 @@ SrvJunk(f) == /\ junk < MaxJunk /\ junk' = junk + 1 /\ Put(f)
 JunkFrames == {Frame("resp", id, 99) : id \in answered}                       \* duplicate of an answered id (other content)
               \cup {Frame("resp", nextId + 7, 99)}                            \* an id never issued
               \cup (IF HasNotify THEN {Frame("notify", id, 98) : id \in seen \cup pending} ELSE {})  \* notify reusing an in-flight id
+\* a close is "lossy" (tag 1) when the connection is reset rather than shut down in order: the peer closes with
+\* requests unread or still arriving, or resets outright.  TCP then discards what the client has not yet read.
 SrvFault(k) == /\ AllowFault /\ \A i \in 1..Len(s2c) : s2c[i].kind \notin {"close", "malformed"}
-               /\ Put(Frame(k, 0, 0))
+               /\ \E lossy \in {0, 1} : (lossy = 1 => k = "close") /\ Put(Frame(k, 0, lossy))
                /\ UNCHANGED <<nextId, pending, pc, cid, chan, result, c2s, seen, answered, junk, cur, writerShut, reader, notes, subEnded>>
+
+\* the network: a reset discards every frame the client has not read yet
+NetReset == /\ \E i \in 2..Len(s2c) : s2c[i].kind = "close" /\ s2c[i].tag = 1 /\ s2c' = SubSeq(s2c, i, Len(s2c))
+            /\ UNCHANGED <<nextId, pending, pc, cid, chan, result, c2s, seen, answered, junk, cur, writerShut, reader, notes, subEnded>>
 
 \* ---- the reader
 Recv == /\ reader = "alive" /\ cur = NoFrame /\ s2c # <<>>
@@ -129,7 +135,7 @@ Fail2 == /\ reader = "failing2" /\ (IF ShutFirst THEN DoDrain ELSE DoShut) /\ re
          /\ UNCHANGED <<nextId, pc, cid, result, c2s, s2c, seen, answered, junk, cur, notes>>
 
 CallerStep == \E c \in Callers : Alloc(c) \/ Register(c) \/ Write(c) \/ Take(c) \/ Timeout(c) \/ Cancel(c)
-ServerStep == SrvRead \/ (\E id \in seen : SrvReply(id)) \/ (\E f \in JunkFrames : SrvJunk(f)) \/ (\E k \in {"close", "malformed"} : SrvFault(k))
+ServerStep == SrvRead \/ (\E id \in seen : SrvReply(id)) \/ (\E f \in JunkFrames : SrvJunk(f)) \/ (\E k \in {"close", "malformed"} : SrvFault(k)) \/ NetReset
 ReaderStep == Recv \/ Dispatch \/ Fail1 \/ Fail2
 Next == CallerStep \/ ServerStep \/ ReaderStep
 Spec == Init /\ [][Next]_vars
